@@ -18,6 +18,8 @@ THEOREMS = [
     "ProbLogProofs.C13.C13_sld_answers_extend",
     "ProbLogProofs.C13.C13_unify_sound",
     "ProbLogProofs.C13.C13_bottomup_sound",
+    "ProbLogProofs.C13.C13_sld_complete_partial",
+    "ProbLogProofs.C13.C13_naf_sound_partial",
     "ProbLogProofs.C13.C13_index_order",
 ]
 REFUTATIONS = ["ProbLogProofs.C13.C13_index_order_unfixed_refuted"]
@@ -36,7 +38,7 @@ MANIFEST = {
             "and the real ClauseIndex.find with its Lean model (plus a run-time monitor of every find call).",
     "note": "Trusted: Lean kernel, standard axioms, harness/driver glue, and that the Lean SLD interpreter is Prolog's "
             "strategy (no SWI/Yap available; it is cross-checked by an independent Python interpreter). Completeness of "
-            "SLD search is not proved (soundness + finite-failure soundness for ground atoms of fact predicates only). "
+            "SLD search is proved for ground (propositional) positive programs only (C13_sld_complete_partial). "
             "Known findings (tabling semantics): findall order/duplicates deviate from Prolog when one answer has several "
             "proofs or a predicate mixes facts and rules.",
     "design_ref": "DESIGN.md §6 C13",
